@@ -110,6 +110,30 @@ def _get_next_unique_id(id_: str) -> str:
     return id_
 
 
+def _canonical_str(val: Any, top: bool = True) -> str:
+    """Same as `str(val)`, except that sets (also inside tuples) are rendered
+    with their elements in sorted order: the iteration order of a set depends
+    on its insertion history and on the string hash seed of the process."""
+    if isinstance(val, (set, frozenset)):
+        items = ", ".join(sorted(_canonical_str(v, False) for v in val))
+        return f"{type(val).__name__}({{{items}}})"
+
+    if type(val) is tuple:
+        items = ", ".join(_canonical_str(v, False) for v in val)
+        return f"({items},)" if len(val) == 1 else f"({items})"
+
+    return str(val) if top else repr(val)
+
+
+def _digest_text(val: Any) -> str:
+    """Text of a property value for the id digests.
+
+    The closing parenthesis (and the escape character) are escaped, so a
+    value can never run into the fields that follow it in the digest input.
+    """
+    return _canonical_str(val).replace("\\", "\\\\").replace(")", "\\)")
+
+
 def _unregister(node: ASTNode) -> bool:
     """Remove `node` from the registry, but only if it is the object registered
     under its id (a detached node may share its id with a live twin)."""
@@ -223,7 +247,7 @@ class ASTNode(DataClassSerializeMixin):
             sort_keys=True,
         ):
             cid_data += f":{f.name}="
-            cid_data += f"{type(val)}({val!s})"
+            cid_data += f"{type(val)}({_digest_text(val)})"
 
         # Full ID must include origin's (current node and children)
         id_data = f"{self.__class__.__name__}@{self.origin.fqn}{cid_data}"
